@@ -35,6 +35,7 @@ EXPLANATION = (
 R1_UNREACHABLE = {}
 
 # R3: functions allowed to assign current_filename (confirmed by reading lexact.c / expscan.l)
+LEGACY_FILENAME_WRITERS = {"SCANpop_buffer": "buffer-stack code called only from SCANread <- SCANnextchar, which the generated (perplex) scanner never calls"}
 FILENAME_WRITERS = {"SCANpush_buffer": "enters an INCLUDEd file", "SCANpop_buffer": "returns to the including file",
                     "SCAN_lex_init": "(re)initialises the scanner for the file handed to the parser"}
 
@@ -229,6 +230,15 @@ def r3_attribution(prog, res):
                 "sym.%s = %s %s" % (fld, expr_str(rhs), "dominates the forwarding call" if dom else "does NOT dominate the forwarding call")
                 if good_src else "sym.%s is set from %s" % (fld, expr_str(rhs)))
     # who may write current_filename
+    from engines import call_args
+    pkeys = [g.key for nm in ("main", "EXPRESSparse", "PARSERrun", "EXPRESSresolve", "EXPRESSinit_init", "print_file") for g in prog.by_name.get(nm, [])]
+    if pkeys:
+        parse_reach = prog.reachable_from(pkeys)
+    else:
+        # no parser in this program (self-test subject): every writer counts as reachable
+        parse_reach = {g.key for g in prog.all_functions()}
+        if len(parse_reach) > 300:
+            res.broke("anchor vanished: EXPRESSparse / PARSERrun")
     nw = 0
     for fn in prog.all_functions():
         if fn.component == "test":
@@ -239,9 +249,29 @@ def r3_attribution(prog, res):
                 lhs = strip(n["ch"][0])
                 if lhs["k"] == "Ref" and lhs["n"] == "current_filename" and lhs.get("dk") == "global":
                     nw += 1
-                    ok = fn.name in FILENAME_WRITERS
+                    # The name every diagnostic is attributed to may only change together with the file the scanner really
+                    # reads: each reachable call of the writer passes the FILE* that the same caller hands to
+                    # perplexFileScanner().  A writer that is not reachable from the parser is legacy code (listed).
+                    if fn.key not in parse_reach:
+                        ok = fn.name in LEGACY_FILENAME_WRITERS
+                        why = ("not reachable from any entry point of the tools; listed: %s" % LEGACY_FILENAME_WRITERS[fn.name]) if ok else \
+                            "a function outside the scanner set-up writes the name diagnostics are attributed to"
+                    else:
+                        fpi = [i for i, p_ in enumerate(fn.params) if "FILE" in (fn.tyname(p_["t"]) if isinstance(p_.get("t"), int) else "")]
+                        sites = [(g, c) for g in prog.all_functions() if g.key in parse_reach for c in g.calls() if c.get("fk") == fn.key]
+                        ok, why = bool(fpi) and bool(sites), "no FILE* parameter / no call site"
+                        for g, c in sites:
+                            a = call_args(c)
+                            v = strip(a[fpi[0]]) if fpi and fpi[0] < len(a) else None
+                            inst = [y for y in g.calls() if (y.get("fn") or "") == "perplexFileScanner" and call_args(y) and
+                                    strip(call_args(y)[0]) is not None and v is not None and strip(call_args(y)[0]).get("d") == v.get("d")]
+                            if not inst:
+                                ok = False
+                                why = "%s calls it with a file that is not the one given to perplexFileScanner(): the scanner goes on reading the old file" % g.name
+                        if ok:
+                            why = "every call passes the FILE* that its caller installs as the scanner's input"
                     res.add("R3.filename_writers", "R3|%s|%s|current_filename=" % (fn.relfile(), fn.name), fn.where(n), ok,
-                            "current_filename written in %s (%s)" % (fn.name, "scanner buffer function" if ok else "not a scanner buffer function"))
+                            "current_filename written in %s: %s" % (fn.name, why))
     res.floor("R3.filename_writers", "writers of current_filename", nw, 2)
     # lexer/parser sites pass yylineno as line
     cnt = 0
